@@ -108,7 +108,17 @@ def check_case(ctx, case):
     if case.get("zero_ft"):
         # zeroing is a bounded number of such computations: (iteration cap + 1) x the same per-flight budget
         cap = cfg.get("cMaxIterations", 20)
-        zc = monitors.StepCounter(budget=(cap + 1) * step_budget)
+        # ... of flights at the trial elevations, which range from the sight line upwards: the longest independent flight
+        # over a fan of elevations bounds each of them
+        p_max = p_air
+        with monitors.quiet():
+            for up in (0.0, 10.0, 20.0, 30.0, 45.0, 60.0):
+                fan = dict(spec, zero_deg=0.0, rel_deg=min(up, 89.0 - spec.get("look_deg", 0.0)))
+                p_fan, _, r_fan = refs.fly_until_limits(fan, shot.atmo.get_density_factor_and_mach_for_altitude, tc.drag_by_mach, alt0, *lims, h=2.0)
+                if r_fan is not None:
+                    p_max = max(p_max, p_fan)
+        zero_flight_budget = int(1.5 * p_max / calc_step + 1000)
+        zc = monitors.StepCounter(budget=(cap + 1) * zero_flight_budget)
         zshot = build.shot(spec)
         before = zshot.weapon.zero_elevation.raw_value
         ctx.count("zeroings_budgeted")
@@ -123,9 +133,9 @@ def check_case(ctx, case):
                 ctx.count("zeroings_raised")
             except monitors.StepBudgetExceeded:
                 ctx.violation("zeroing-no-termination-within-budget",
-                              f"set_weapon_zero took more than {(cap + 1) * step_budget} integration steps ({cap} iterations allowed, "
-                              f"{step_budget} steps per flight)", case)
-        ctx.max("zero_steps_over_budget", zc.steps / ((cap + 1) * step_budget))
+                              f"set_weapon_zero took more than {(cap + 1) * zero_flight_budget} integration steps ({cap} iterations allowed, "
+                              f"{zero_flight_budget} steps for the longest flight of a fan of elevations)", case)
+        ctx.max("zero_steps_over_budget", zc.steps / ((cap + 1) * zero_flight_budget))
     nontrivial = err is not None or abs(el) > 45
 
     def bad(key, what, **kw):
